@@ -8,6 +8,7 @@ import Cdecao.Spec.Hard
 import Cdecao.Spec.Score
 import Cdecao.Spec.Hung
 import Cdecao.Spec.Room
+import Cdecao.Spec.Valid
 /-! Model driver: one request per line (`TAG<TAB>payload`), one answer line per request.
     The harness (Rust, calling the real code) writes the same cases and diffs the answers. -/
 open Lean
@@ -141,7 +142,7 @@ def handleA (payload : String) : String :=
     let room := match I.rooms with
       | none => true
       | some r => RSpec.roomOKb I R a r
-    s!"hard={hard} score={scoreOfL I a} room={room}"
+    s!"valid={validb I} hard={hard} score={scoreOfL I a} room={room}"
   | _ => "bad"
 
 /-! ## B: the model's own whole-search result (maximum over the feasible nodes of the model's
